@@ -8,6 +8,7 @@ and every sink function `enc : ContentType → Bytes → Bytes` (escaping + enco
 import LolHtml.Lemmas.Edit
 import LolHtml.Lemmas.EditDoc
 import LolHtml.Lemmas.ElementOps
+import LolHtml.Lemmas.Attrs
 
 namespace LolHtml.Thm.C07
 open LolHtml LolHtml.Model LolHtml.Spec.Edit LolHtml.Lemmas.Edit
@@ -83,6 +84,134 @@ example :
         [.mut .remove, .mut (.before (.buffer [60] .text)), .mut (.after (.buffer [62] .text))]).intoBytes encUtf8
       = [38, 108, 116, 59, 38, 103, 116, 59] := by decide
 
+
+/-! ## C07_attrs_preserved — a modified start tag keeps every untouched attribute
+
+`attrsApplyOps items ops` is the attribute list after any sequence of `set_attribute` /
+`remove_attribute` calls (`Lemmas.Attrs.startTag_attributes`: it is the attribute list of the start
+tag after the script). An attribute is *touched* if some call with an acceptable name names it
+(ASCII case-insensitively). -/
+
+section Attrs
+open LolHtml.Lemmas.Attrs
+
+/-- The attribute list of a start tag after a script is the attribute operations applied in order. -/
+theorem C07_attrs_of_startTag (t : StartTag) (ops : List StartTagOp) :
+    (t.applyOps ops).attributes = attrsApplyOps t.attributes (startAttrOps ops) :=
+  startTag_attributes t ops
+
+/-- **Untouched attributes survive unchanged, in their original order**: restricted to the
+untouched attributes, the list after the script *is* the original list (same records — name, value
+and raw source bytes — in the same order). -/
+theorem C07_attrs_untouched_preserved (items : List Attribute) (ops : List AttrOp) :
+    (attrsApplyOps items ops).filter (fun a => !touched ops a)
+      = items.filter (fun a => !touched ops a) := by
+  induction ops generalizing items with
+  | nil => rfl
+  | cons op ops ih =>
+    have h1 : ∀ l : List Attribute, l.filter (fun a => !touched (op :: ops) a)
+        = (l.filter (fun a => !touched ops a)).filter (fun a => !keyMatch op a) := by
+      intro l
+      rw [List.filter_filter]
+      congr 1
+      funext a
+      rw [touched_cons]
+      cases keyMatch op a <;> cases touched ops a <;> rfl
+    have h2 : ∀ l : List Attribute, (l.filter (fun a => !touched ops a)).filter (fun a => !keyMatch op a)
+        = (l.filter (fun a => !keyMatch op a)).filter (fun a => !touched ops a) := by
+      intro l
+      rw [List.filter_filter, List.filter_filter]
+      congr 1
+      funext a
+      cases keyMatch op a <;> cases touched ops a <;> rfl
+    simp only [attrsApplyOps, List.foldl_cons] at ih ⊢
+    rw [h1, ih, h1, h2, attrApply_filter, ← h2]
+
+/-- **Everything else is an attribute written by the API**: an attribute of the result either is one
+of the original attributes (with its raw bytes), or it is a touched one without raw bytes … -/
+theorem C07_attrs_provenance (items : List Attribute) (ops : List AttrOp) (a : Attribute)
+    (ha : a ∈ attrsApplyOps items ops) : a ∈ items ∨ (a.raw = none ∧ touched ops a = true) := by
+  induction ops generalizing items with
+  | nil => exact Or.inl ha
+  | cons op ops ih =>
+    simp only [attrsApplyOps, List.foldl_cons] at ih ha
+    rcases ih _ ha with h | h
+    · rcases attrApply_mem items op a h with h' | h'
+      · exact Or.inl h'
+      · exact Or.inr ⟨h'.1, by rw [touched_cons, h'.2]; rfl⟩
+    · exact Or.inr ⟨h.1, by rw [touched_cons, h.2]; simp⟩
+
+/-- … and such an attribute is serialised as `name="value with &quot; for quotes"`, an original one
+as its raw source bytes. -/
+theorem C07_attr_serialisation (a : Attribute) :
+    a.intoBytes = (match a.raw with
+      | some raw => raw
+      | none => a.name ++ [61, 34] ++ escapeDoubleQuotesOnly a.value ++ [34]) := rfl
+
+/-- **The last `set_attribute` for a name wins**: if the last call about the key `k` is
+`set_attribute(n, v)`, the first attribute matching `k` — the one `get_attribute` returns — has value
+`v` and is serialised as `name="v"`. -/
+theorem C07_attrs_last_set (items : List Attribute) (pre post : List AttrOp) (n v k : Bytes)
+    (hk : (AttrOp.set n v).key = some k) (hpost : ∀ op ∈ post, op.key ≠ some k) :
+    ∃ a, lookup k (attrsApplyOps items (pre ++ AttrOp.set n v :: post)) = some a
+      ∧ a.value = v ∧ a.raw = none := by
+  simp only [attrsApplyOps, List.foldl_append, List.foldl_cons]
+  have := attrsApplyOps_other_lookup (attrApply (pre.foldl attrApply items) (.set n v)) post k hpost
+  simp only [attrsApplyOps] at this
+  rw [this]
+  exact attrApply_set_lookup _ n v k hk
+
+/-- **The last `remove_attribute` for a name wins**: no attribute matching `k` is left. -/
+theorem C07_attrs_last_remove (items : List Attribute) (pre post : List AttrOp) (n k : Bytes)
+    (hk : (AttrOp.remove n).key = some k) (hpost : ∀ op ∈ post, op.key ≠ some k) :
+    lookup k (attrsApplyOps items (pre ++ AttrOp.remove n :: post)) = none := by
+  simp only [attrsApplyOps, List.foldl_append, List.foldl_cons]
+  have := attrsApplyOps_other_lookup (attrApply (pre.foldl attrApply items) (.remove n)) post k hpost
+  simp only [attrsApplyOps] at this
+  rw [this]
+  exact attrApply_remove_lookup _ n k hk
+
+/-- `get_attribute` is the lookup of the lower-cased name. -/
+theorem C07_getAttribute_lookup (items : List Attribute) (n k : Bytes)
+    (hk : attrNameFromString (asciiLowerBytes n) = some k) :
+    attrsGetAttribute items n = (lookup k items).map (·.value) := by
+  simp [attrsGetAttribute, hk, lookup]
+
+/-- Own bytes of a start tag: untouched by name/attribute calls ⇒ the source bytes … -/
+theorem C07_startTag_own_untouched (t : StartTag) (hm : t.modified = false) (ops : List StartTagOp)
+    (h : ∀ op ∈ ops, ∃ o, op = StartTagOp.mut o) : (t.applyOps ops).serializeSelf = t.raw := by
+  have : (t.applyOps ops).modified = false ∧ (t.applyOps ops).raw = t.raw := by
+    induction ops generalizing t with
+    | nil => exact ⟨hm, rfl⟩
+    | cons op ops ih =>
+      obtain ⟨o, rfl⟩ := h op List.mem_cons_self
+      simp only [StartTag.applyOps, List.foldl_cons] at ih ⊢
+      exact ih (t.apply (.mut o)) hm (fun x hx => h x (List.mem_cons_of_mem _ hx))
+  simp [StartTag.serializeSelf, this.1, this.2]
+
+/-- … otherwise rebuilt: `<` name, a space before every attribute, a space before `/>` if there
+are attributes (an unquoted last value must not swallow the `/`), `>` or `/>`. -/
+theorem C07_startTag_own_rebuilt (t : StartTag) (hm : t.modified = true) :
+    t.serializeSelf = [60] ++ t.name
+      ++ (if t.attributes.isEmpty then [] else
+            (t.attributes.flatMap fun a => [32] ++ a.intoBytes) ++ (if t.selfClosing then [32] else []))
+      ++ (if t.selfClosing then [47, 62] else [62]) := by
+  simp only [StartTag.serializeSelf, hm, attrsIntoBytes]
+  cases t.attributes.isEmpty <;> simp
+
+/-- Non-vacuity: `<a HREF=x id="1" class=c>` with `set_attribute("href","y\"")`, `remove_attribute("ID")`,
+`set_attribute("new","")`: `HREF` keeps its spelling and position, `class=c` its raw bytes. -/
+example :
+    attrsIntoBytes (attrsApplyOps
+      [{ name := [72, 82, 69, 70], value := [120], raw := some [72, 82, 69, 70, 61, 120] },
+       { name := [105, 100], value := [49], raw := some [105, 100, 61, 34, 49, 34] },
+       { name := [99, 108, 97, 115, 115], value := [99], raw := some [99, 108, 97, 115, 115, 61, 99] }]
+      [.set [104, 114, 101, 102] [121, 34], .remove [73, 68], .set [110, 101, 119] []])
+    = [32, 72, 82, 69, 70, 61, 34, 121, 38, 113, 117, 111, 116, 59, 34,
+       32, 99, 108, 97, 115, 115, 61, 99,
+       32, 110, 101, 119, 61, 34, 34] := by decide
+
+end Attrs
 
 /-! ## C07_element_ops — every `Element` method = its documented edit of the element's regions
 
